@@ -539,6 +539,14 @@ def _assert_invariant(contract: Contract, instance: Any) -> None:
     else:
         check = contract.condition()
 
+    if inspect.iscoroutine(check):
+        # Invariants are never awaited; a coroutine object must not be mistaken for a truthy result.
+        check.close()
+        raise ValueError(
+            "Unexpected coroutine resulting from the invariant condition {}. "
+            "Async invariants are not supported.".format(contract.condition)
+        )
+
     if not_check(check=check, contract=contract):
         raise _create_violation_error(
             contract=contract, resolved_kwargs={"self": instance}
